@@ -51,6 +51,8 @@ def main():
         cmd = re.sub(r"/tmp/seed/out/\w+", out.rstrip("/"), cmd)
         return cmd
     try:
+        if "--checks-only" in a:
+            raise StopIteration
         demo = os.path.join(out, "demo.diff")
         patch = os.path.join(out, "patch.diff")
         rc, o = sh("git apply --whitespace=nowarn %s" % demo, cwd=wt) if os.path.exists(demo) else (0, "")
@@ -74,11 +76,34 @@ def main():
             m = re.search(r"(\d+) tests run: (\d+) passed(?:, (\d+) failed)?", o)
             res["suite"] = m.group(0) if m else o[-400:]
             res["suite_ok"] = bool(m) and m.group(1) == m.group(2)
+    except StopIteration:
+        old = os.path.join(out, "verify.json")
+        if os.path.exists(old):
+            prev = json.load(open(old))
+            res.update({k: v for k, v in prev.items() if k.startswith(("demo_", "suite", "patch_"))})
     finally:
         sh("git -C %s worktree remove --force %s" % (REPO, wt))
         shutil.rmtree(wt, ignore_errors=True)
-    # run the checks against /repo with the patch applied, always undo
     det = {}
+    if "--scratch" in a:
+        # same checks, but against a scratch copy of /repo (used while something else is reading /repo)
+        sc = "/tmp/seedv/repo-%s" % os.path.basename(out.rstrip("/"))
+        sh("rsync -a --delete --exclude /target --exclude .git %s/ %s/" % (REPO, sc))
+        rc, o = sh("git apply --whitespace=nowarn %s" % os.path.join(out, "patch.diff"), cwd=sc)
+        if rc != 0:
+            # not a git dir: fall back to patch(1)
+            rc, o = sh("patch -p1 < %s" % os.path.join(out, "patch.diff"), cwd=sc)
+        env2 = dict(os.environ, TFV_REPO=sc, TFV_CACHE="/tmp/seedv/cache", TFV_EVIDENCE_DIR="/tmp/seedv/evidence")
+        if not os.path.isdir("/tmp/seedv/cache/target") and os.path.isdir(os.path.join(VERIF, ".cache", "target")):
+            os.makedirs("/tmp/seedv/cache", exist_ok=True)
+            sh("cp -r %s /tmp/seedv/cache/target" % os.path.join(VERIF, ".cache", "target"))
+        for c in checks:
+            rc, o = sh("./check %s --tier quick" % c, cwd=VERIF, env=env2)
+            keys = re.findall(r"^\s+%s: \[(.*?)\] " % c, o, re.M)
+            det[c] = {"rc": rc, "violations": keys[:12], "tail": o[-300:] if rc not in (0, 1) else ""}
+        shutil.rmtree(sc, ignore_errors=True)
+        return finish(res, det, out, a)
+    # run the checks against /repo with the patch applied, always undo
     rc, o = sh("git -C %s status --porcelain" % REPO)
     if o.strip():
         print("refusing: /repo has local changes")
@@ -95,6 +120,10 @@ def main():
     finally:
         sh("git -C %s checkout -- ." % REPO)
         sh("git -C %s clean -fdq" % REPO)
+    return finish(res, det, out, a)
+
+
+def finish(res, det, out, a):
     res["checks"] = det
     res["confirmed"] = bool(res.get("demo_clean_rc") == 0 and res.get("demo_patched_rc") not in (0, None) and res.get("suite_ok", "--skip-suite" in a))
     res["detected_by"] = [c for c, d in det.items() if d["rc"] == 1]
